@@ -830,8 +830,13 @@ func c06Payload(e *Env) {
 	// blocks of insert
 	nBlk := 0
 	ast.Inspect(ins.Decl.Body, func(n ast.Node) bool {
-		blk, ok := n.(*ast.BlockStmt)
-		if !ok {
+		var stmts []ast.Stmt
+		switch x := n.(type) {
+		case *ast.BlockStmt:
+			stmts = x.List
+		case *ast.CaseClause:
+			stmts = x.Body
+		default:
 			return true
 		}
 		// per base variable: payload fields assigned directly in this block
@@ -840,7 +845,7 @@ func c06Payload(e *Env) {
 			pos    ast.Node
 		}
 		byBase := map[*types.Var]*upd{}
-		for _, s := range blk.List {
+		for _, s := range stmts {
 			as, ok := s.(*ast.AssignStmt)
 			if !ok {
 				continue
